@@ -359,6 +359,32 @@ func c02AggStream(w *c02World, st *c02Streams) {
 	}
 	mk(Q, baseParts(Q), v+1, "aggqc-view-relabelled")
 	mk(Q, w.aggParts(Q, v+1, qcOf), v, "signed-for-other-view")
+	// the same with large deltas: the aggregate's view and the timeout messages' view differ by 2^32, 2^63, ...
+	// (the first of each family with all verifier / cache combinations and sub-streams, the others lite)
+	for di, d := range c02ViewDeltas {
+		w.repeat = di > 0
+		mk(Q, baseParts(Q), v+d, fmt.Sprintf("aggqc-view-relabelled-by-%d", d))
+	}
+	w.repeat = false
+	mk(Q, w.aggParts(Q, v+1<<32, qcOf), v, "signed-for-view-plus-2^32")
+	w.repeat = true
+	mk(Q, w.aggParts(Q, v+1<<63, qcOf), v, "signed-for-view-plus-2^63")
+	// honest aggregates at views around 2^32 and at the top of the range, and their relabelled twins
+	for _, base := range []uint64{1<<32 - 1, 1 << 32, 1<<32 + 1, 1<<64 - 2} {
+		w.evalAgg(st, build(N, base, cyc(q1, gQC)), fmt.Sprintf("honest-aggqc-view-%d", base), true)
+		for _, d := range []uint64{1 << 32, 1<<64 - 1<<32} {
+			w.evalAgg(st, w.mkAgg(c02QCMap(Q, qcOf), w.render(c02Spec{parts: w.aggParts(Q, base, qcOf)}), base+d), fmt.Sprintf("aggqc-view-%d-relabelled-by-%d", base, d), false)
+		}
+	}
+	w.repeat = false
+	// the view INSIDE a reported QC relabelled by 2^32 / 2^63: the signers attested the QC of view 1
+	for di, d := range []uint64{1 << 32, 1 << 63, 1<<32 + 1} {
+		qr := w.mkQC(q1.sig, 1+d, "B1")
+		w.repeat = di > 0
+		w.evalAgg(st, w.mkAgg(c02QCMap(N, all(qr)), w.render(c02Spec{parts: w.aggParts(N, v, all(q1))}), v), fmt.Sprintf("reported-qc-view-relabelled-by-%d", d), false)
+		w.evalAgg(st, build(N, v, cyc(q2, qr)), fmt.Sprintf("qc-relabelled-by-%d-in-pool", d), n >= 2)
+	}
+	w.repeat = false
 	mk(Q[:q-1], baseParts(append(c02Range(1, q-1), 1)), v, "repeated-signer")
 	mk([]uint64{1}, baseParts(c02Rep(1, q)), v, "repeated-signer-q-times")
 	mk(Q[:q-1], baseParts(Q[:q-1]), v, "sub-quorum")
